@@ -67,14 +67,14 @@ theorem compat_counterexample_K5 :
     compatible k5Reader k5Writer = true ∧
     deriveEncode k5Writer (.struct [.int 1, .int 2]) = [0x83, 0x01, 0xf6, 0x02] ∧
     project k5Writer k5Reader (.struct [.int 1, .int 2]) = .ok (.struct [.int 1, .none, .int 2]) ∧
-    deriveDecode k5Reader [0x83, 0x01, 0xf6, 0x02] = .err .type [0xf6, 0x02] := by
+    deriveDecode k5Reader [0x83, 0x01, 0xf6, 0x02] = .err .type [0x02] := by
   refine ⟨by rfl, by rfl, by rfl, by rfl, by rfl, by rfl, by rfl⟩
 
 theorem compat_decode_statement_false : ¬ compat_decode_statement := by
   intro h
   have := h k5Writer k5Reader (.struct [.int 1, .int 2]) [] (by rfl) (by rfl) (by rfl) (by rfl) (by rfl)
     (.struct [.int 1, .none, .int 2]) (by rfl)
-  have e : deriveDecode k5Reader (deriveEncode k5Writer (.struct [.int 1, .int 2]) ++ []) = .err .type [0xf6, 0x02] := by rfl
+  have e : deriveDecode k5Reader (deriveEncode k5Writer (.struct [.int 1, .int 2]) ++ []) = .err .type [0x02] := by rfl
   rw [e] at this
   cases this
 
@@ -114,7 +114,7 @@ theorem compat_not_transitive :
     let c : FTy := .struct {} [({ idx := 0 }, .int .u8), ({ idx := 1 }, .option (.text .string))]
     compatible a b = true ∧ compatible b a = true ∧ compatible b c = true ∧ compatible c b = true ∧
     compatible a c = false ∧
-    deriveDecode c (deriveEncode a (.struct [.int 1, .some (.int 5)])) = .err .type [0x05] := by
+    deriveDecode c (deriveEncode a (.struct [.int 1, .some (.int 5)])) = .err .type [] := by
   refine ⟨by rfl, by rfl, by rfl, by rfl, by rfl, by rfl⟩
 
 /-! ## Missing mandatory fields are always an error -/
